@@ -8,6 +8,7 @@ import (
 	"go/types"
 	"regexp"
 	"sort"
+	"strconv"
 	"strings"
 
 	"dstverif/load"
@@ -1156,7 +1157,7 @@ func (e *Env) checkReturnsZ(rule string, c *schema.Ctx, fd *ast.FuncDecl, label,
 			break
 		}
 		e.Run.Check(rule, label+": every return is the default or a specified (result, error) pair", e.Prog.Pos(r.pos), match >= 0,
-			"returns ("+r0+", "+r1+"), which is none of the specified pairs")
+			"returns ("+r0+", "+r1+") under `"+r.cond+"`, which is none of the specified pairs")
 		if match >= 0 {
 			cd := r.cond
 			if cd == "" {
@@ -1246,6 +1247,13 @@ func (e *Env) goastImports() {
 	var specLoop *ast.RangeStmt
 	if lit == nil {
 		specLoop = e.goastSpecLoop(c, fd)
+	}
+	if specLoop != nil {
+		// the loops may select the import declarations with a type switch: its clause tests count
+		// as conditions and its typed variable prints as the assertion it stands for
+		c.TypeSwitchConds = true
+		undoTS := c.InstallTypeSwitchVars(fd)
+		defer func() { c.TypeSwitchConds = false; undoTS() }()
 	}
 	if lit == nil && specLoop == nil {
 		returnsSpec("imports", "outer")
@@ -1972,6 +1980,10 @@ func (e *Env) RQuietRearrange() {
 			})
 			return true
 		})
+		// or: a queue of new specs that is appended to a block as a whole (X.Specs = append(X.Specs, Q...))
+		if !found && e.specQueue(info, fd, m[1]) != nil {
+			found = true
+		}
 		return found
 	}
 	lenCmp := regexp.MustCompile(`^len\(.+\) != len\(.+\)$`)
@@ -2252,8 +2264,139 @@ func (e *Env) RAddsEveryMissing() {
 		}
 		return true
 	})
+	// form C: the new specs are collected in a queue Q (filled in the loop over all required
+	// imports, exactly for the missing paths) and appended to a block as a whole
+	ast.Inspect(fd.Body, func(nd ast.Node) bool {
+		as, ok := nd.(*ast.AssignStmt)
+		if !ok || len(as.Lhs) != 1 || len(as.Rhs) != 1 {
+			return true
+		}
+		se, ok := as.Lhs[0].(*ast.SelectorExpr)
+		if !ok || se.Sel.Name != "Specs" {
+			return true
+		}
+		cl, ok := as.Rhs[0].(*ast.CallExpr)
+		if !ok || types.ExprString(cl.Fun) != "append" || len(cl.Args) != 2 || !cl.Ellipsis.IsValid() {
+			return true
+		}
+		qid, ok := ast.Unparen(cl.Args[1]).(*ast.Ident)
+		if !ok {
+			return true
+		}
+		sq := e.specQueue(info, fd, qid.Name)
+		if sq == nil {
+			return true
+		}
+		n++
+		q := qid.Name
+		// (1) the queue is filled exactly for the missing paths
+		good, why := len(sq.fills) > 0, "the queue "+q+" is never filled"
+		for _, f := range sq.fills {
+			fl := enclosing(f)
+			var flid *ast.Ident
+			if fl != nil {
+				flid, _ = ast.Unparen(fl.X).(*ast.Ident)
+			}
+			if fl == nil || flid == nil || info.Uses[flid] != all {
+				good, why = false, "the queue "+q+" is filled outside a loop over all required imports"
+				continue
+			}
+			if g, w := exactlyMissing(f, fl); !g {
+				good, why = false, "the queue "+q+" is filled, but "+w
+			}
+		}
+		// (2) the queue reaches the block whenever it is not empty
+		cond, okc := pathCond(c, fd.Body.List, as)
+		reached, dec := unsatWith("r.Resolver != nil && len("+q+") > 0", schema.NegGuard("("+orTrue(cond)+")"))
+		if !okc || !dec {
+			e.Run.Undecided("R-ADD", key, e.Prog.Pos(as.Pos()), "condition not propositional: "+cond)
+			return true
+		}
+		if good && !reached {
+			good, why = false, "the queue "+q+" is appended to the block only under `"+cond+"`"
+		}
+		e.Run.Check("R-ADD", key, e.Prog.Pos(as.Pos()), good, why+": a referenced package can stay without an import")
+		// (3) the block that receives the queue is not thrown away by a deletion decided earlier
+		recv := c.ExprStr(se.X)
+		ast.Inspect(fd.Body, func(m ast.Node) bool {
+			del, ok := m.(*ast.AssignStmt)
+			if !ok || len(del.Lhs) != 1 || len(del.Rhs) != 1 || del.Pos() > as.Pos() {
+				return true
+			}
+			ix, ok := del.Lhs[0].(*ast.IndexExpr)
+			if !ok || c.ExprStr(del.Rhs[0]) != "true" {
+				return true
+			}
+			if id, ok := ast.Unparen(ix.X).(*ast.Ident); !ok || !strings.HasPrefix(strings.ToLower(id.Name), "delete") {
+				return true
+			}
+			dcond, okd := pathCond(c, fd.Body.List, del)
+			victim := c.ExprStr(ix.Index)
+			safe, dec := unsatWith(orTrue(dcond), "len("+q+") > 0 && "+victim+" == "+recv)
+			k2 := "updateImports: the block that receives the new specs is not deleted"
+			if !okd || !dec {
+				e.Run.Undecided("R-ADD", k2, e.Prog.Pos(del.Pos()), "condition not propositional: "+dcond)
+				return true
+			}
+			e.Run.Check("R-ADD", k2, e.Prog.Pos(del.Pos()), safe,
+				fmt.Sprintf("%s is marked for deletion under `%s`, which does not exclude that it is %s while %s still holds specs to add: they are appended to it afterwards (%s) and dropped with it — the code refers to packages that are not imported", victim, dcond, recv, q, e.Prog.Pos(as.Pos())))
+			return true
+		})
+		return true
+	})
 	e.Run.Analysed("import-spec additions", n)
 	e.Run.Floor("R-ADD", "import-spec additions in updateImports", n, 1)
+}
+
+// specQueue: the local slice named q in fd is a queue of new import specs: every assignment to it
+// is `q = append(q, x)` with x a *dst.ImportSpec (or its declaration). fills are those appends.
+type specQueueInfo struct{ fills []*ast.AssignStmt }
+
+func (e *Env) specQueue(info *types.Info, fd *ast.FuncDecl, q string) *specQueueInfo {
+	out := &specQueueInfo{}
+	good := true
+	ast.Inspect(fd.Body, func(n ast.Node) bool {
+		as, ok := n.(*ast.AssignStmt)
+		if !ok {
+			return true
+		}
+		for i, l := range as.Lhs {
+			id, ok := l.(*ast.Ident)
+			if !ok || id.Name != q {
+				continue
+			}
+			if _, isSlice := info.TypeOf(id).Underlying().(*types.Slice); !isSlice {
+				good = false
+				continue
+			}
+			if len(as.Lhs) != len(as.Rhs) {
+				good = false
+				continue
+			}
+			cl, ok := as.Rhs[i].(*ast.CallExpr)
+			if !ok || types.ExprString(cl.Fun) != "append" || len(cl.Args) != 2 || cl.Ellipsis.IsValid() || types.ExprString(cl.Args[0]) != q {
+				// a fresh empty slice is a declaration
+				if tv := info.Types[as.Rhs[i]]; tv.IsNil() {
+					continue
+				}
+				if lit, ok := as.Rhs[i].(*ast.CompositeLit); ok && len(lit.Elts) == 0 {
+					continue
+				}
+				good = false
+				continue
+			}
+			if _, tn := namedOf(info.TypeOf(cl.Args[1])); tn != "ImportSpec" {
+				good = false
+				continue
+			}
+			out.fills = append(out.fills, as)
+		}
+		return true
+	})
+	if !good || len(out.fills) == 0 {
+		return nil
+	}
+	return out
 }
 
 // RCarry: what the resolver found is what the tree carries. (1) decorate's Ident case stores the
@@ -2390,4 +2533,77 @@ func orTrue(c string) string {
 		return "true"
 	}
 	return c
+}
+
+// RNameSource (C07, C08): a path reaches the name selection (findAlias) only if a name can be
+// found for it. The scan records as required, besides the paths of identifiers (which are
+// resolved or aliased), constant pseudo-paths — importsRequired["C"] for cgo. Such a path is
+// never in packagesInUse, has no resolved name and no alias, so findAlias would look for a free
+// name starting from the empty string; that is harmless only while no dot or blank import has
+// been given its empty name yet — an accident of the sort order. Every call of findAlias must
+// therefore be unreachable for each constant required path (`path == "C"` excluded by its path
+// condition), as it is for dot and blank imports.
+func (e *Env) RNameSource() {
+	pkg := e.Prog.Pkg(load.PkgDecorator)
+	info := pkg.TypesInfo
+	c := e.Sib.Ctx[load.PkgDecorator]
+	fd := load.FuncDecl(pkg, "FileRestorer", "updateImports")
+	if fd == nil || fd.Body == nil {
+		return
+	}
+	// constant keys stored into a map[string]bool that also receives identifier paths
+	consts := map[string]bool{}
+	ast.Inspect(fd.Body, func(n ast.Node) bool {
+		as, ok := n.(*ast.AssignStmt)
+		if !ok || len(as.Lhs) != 1 || len(as.Rhs) != 1 {
+			return true
+		}
+		ix, ok := as.Lhs[0].(*ast.IndexExpr)
+		if !ok {
+			return true
+		}
+		if id, ok := ast.Unparen(ix.X).(*ast.Ident); !ok || id.Name != "importsRequired" {
+			return true
+		}
+		if tv, ok := info.Types[ix.Index]; ok && tv.Value != nil && tv.Value.Kind() == constant.String {
+			consts[constant.StringVal(tv.Value)] = true
+		}
+		return true
+	})
+	_, findObj := funcLitNamed(info, fd, "findAlias")
+	if findObj == nil || len(consts) == 0 {
+		e.Run.Floor("R-NAMESRC", "constant required paths / findAlias", len(consts), 1)
+		return
+	}
+	undo := c.InstallReaching(fd)
+	defer undo()
+	n := 0
+	ast.Inspect(fd.Body, func(nd ast.Node) bool {
+		call, ok := nd.(*ast.CallExpr)
+		if !ok || len(call.Args) < 1 {
+			return true
+		}
+		if id, ok := call.Fun.(*ast.Ident); !ok || c.ObjOf(id) != findObj {
+			return true
+		}
+		n++
+		// the path argument, as written at the call (a loop variable)
+		pathArg := types.ExprString(call.Args[0])
+		cond, okc := pathCond(c, fd.Body.List, call)
+		if cond == "" {
+			cond = "true"
+		}
+		for _, k := range sortedKeys(consts) {
+			key := fmt.Sprintf("updateImports: the pseudo-import %q never goes through name selection", k)
+			excl, dec := unsatWith(cond, pathArg+" == "+strconv.Quote(k))
+			if !okc || !dec {
+				e.Run.Undecided("R-NAMESRC", key, e.Prog.Pos(call.Pos()), "condition not propositional: "+cond)
+				continue
+			}
+			e.Run.Check("R-NAMESRC", key, e.Prog.Pos(call.Pos()), excl,
+				fmt.Sprintf("findAlias(%s, …) is reachable for %s == %q under `%s`: %q is required by the scan but has neither a resolved name nor an alias, so the search for a free name starts from the empty string — which is taken as soon as a dot or blank import sorts before it, and the spec is then rewritten as `1 %q` (an unedited cgo file no longer restores)", pathArg, pathArg, k, cond, k, k))
+		}
+		return true
+	})
+	e.Run.Floor("R-NAMESRC", "findAlias call sites", n, 1)
 }
